@@ -1872,7 +1872,10 @@ def extra_wire_oracle(ctx, case, rep, c, t, rd, w, origin, sigt, tname):
         if f.getvalue() != wc:
             ctx.fail(f"C02/to_wire/file-differs-with-compress/{sigt}", f"{tname}: to_wire(file, compress) != to_wire(None, compress)", rep)
         rdc = dns.rdata.from_wire(c, t, wc, 0, len(wc), origin)
-        if not (rdc == rd) or rdc.to_wire(origin=origin) != w or len(wc) > len(w):
+        # compression matches suffixes case-insensitively (RFC 1035 §4.1.4 as dnspython implements it: the table is keyed
+        # by Name), so a name inside the record that ends in a case variant of an earlier name of the same record
+        # comes back with that earlier spelling: the record is equal, its plain re-encoding equal up to ASCII case
+        if not (rdc == rd) or rdc.to_wire(origin=origin).lower() != w.lower() or len(wc) > len(w):
             ctx.fail(f"C02/to_wire/compress-table-changes-record/{sigt}", f"{tname} {w.hex()}: written with compress={{}} it reads back as another record", rep)
     except Exception as e:  # noqa: BLE001
         ctx.fail(f"C02/to_wire/compress-table-raises:{type(e).__name__}/{sigt}", f"{tname} {w.hex()}", rep)
